@@ -230,6 +230,28 @@ inline int run_shutdown_probe()
     t.join();
     return 0;
 }
+// ---- start-up probe: with VH_STARTUP_PROBE set, a constructor function of the harness with an early priority uses the
+// library during static initialisation, before main and before any dynamically initialised object of the library; `--startup-probe`
+// then compares that result with the same probe run from main.  Only the child process started by the `shutdown` case
+// sets the variable, so that in every other process the library's first use is inside main.
+static char g_startup_buf[65536];
+static bool g_startup_ran = false;
+// priority 150: before every namespace-scope object with a dynamic initialiser, including those the library defines
+#define VH_STARTUP_PROBE(fn) \
+    __attribute__((constructor(150))) static void vh_startup_probe_ctor() \
+    { \
+        if (getenv("VH_STARTUP_PROBE")) { \
+            std::string r = fn(); \
+            snprintf(vh::g_startup_buf, sizeof vh::g_startup_buf, "%s", r.c_str()); \
+            vh::g_startup_ran = true; \
+        } \
+    }
+inline int run_startup_probe()
+{
+    if (!g_probe) return 0;
+    if (!g_startup_ran) return 94;
+    return g_probe() == std::string(g_startup_buf) ? 0 : 95;
+}
 inline std::string run_shutdown_case()
 {
     char exe[4096];
@@ -238,6 +260,10 @@ inline std::string run_shutdown_case()
     exe[n] = 0;
     std::string cmd = std::string(exe) + " --shutdown-probe >/dev/null 2>&1";
     int rc = system(cmd.c_str());
+    if (rc == 0) {
+        cmd = std::string("VH_STARTUP_PROBE=1 ") + exe + " --startup-probe >/dev/null 2>&1";
+        rc = system(cmd.c_str());
+    }
     std::ostringstream o;
     o << "shutdown rc=" << (WIFEXITED(rc) ? WEXITSTATUS(rc) : 1000 + WTERMSIG(rc));
     return o.str();
@@ -247,6 +273,7 @@ inline std::string run_shutdown_case()
 inline int run_main(int argc, char **argv, const Dispatch &dispatch)
 {
     if (argc > 1 && std::string(argv[1]) == "--shutdown-probe") return run_shutdown_probe();
+    if (argc > 1 && std::string(argv[1]) == "--startup-probe") return run_startup_probe();
     if (argc < 2) { fprintf(stderr, "usage: %s cases [from] [timeout]\n", argv[0]); return 2; }
     size_t from = argc > 2 ? strtoul(argv[2], nullptr, 10) : 0;
     if (argc > 3) g_case_timeout = atoi(argv[3]);
